@@ -4,6 +4,7 @@ package harness
 // C11 — test cases are isolated.
 
 import (
+	"flag"
 	"fmt"
 	"os"
 	"os/exec"
@@ -208,7 +209,19 @@ func c09Run(t *testing.T, sc Scenario, res *Result) {
 				writeFailFile(name, fmt.Sprintf("20260101000000-%d", i), rapidVersion(), 1, words, "planted")
 			}
 		}
-		fl := map[string]string{"rapid.checks": fmt.Sprint(sc.N)}
+		flagN := sc.N
+		short := sc.Family == "passing" && mix(sc.Seed, 0x5407)%4 == 0 && sc.N >= 5
+		if short {
+			// -short: a fifth of the checks - and a fifth of the budget of skipped cases
+			if err := flag.Set("test.short", "true"); err == nil {
+				defer flag.Set("test.short", "false")
+				sc.N = sc.N / 5
+				res.inc("short_mode_runs")
+			} else {
+				short = false
+			}
+		}
+		fl := map[string]string{"rapid.checks": fmt.Sprint(flagN)}
 		if r.chance(1, 2) {
 			fl["rapid.seed"] = fmt.Sprint(r.next()%100000 + 1)
 		}
